@@ -556,7 +556,7 @@ func xDate(c *Ctx) {
 		xExpect(c, "EXTRA.date.acc", fmt.Sprintf("date.acc %d %d %d", y, m, d), fmt.Sprintf("%d %d %d %d %d %d %d %d %d %d ok %d", y, m, d, y, m, d, u, y, m, d, u))
 	}
 	years := append([]int{}, boundaryYears...)
-	years = append(years, -1, -4, -100, -400, -9999, 10000, 99999, 292277026, -292277022, math.MaxInt32, math.MinInt32 + 1, math.MinInt32 + 2)
+	years = append(years, -1, -4, -100, -400, -9999, 10000, 99999, 292277026, -292277022, math.MaxInt32, math.MinInt32+1, math.MinInt32+2)
 	for i := 0; i < xN(c, 12, 400); i++ {
 		years = append(years, c.R.Intn(20000)-5000)
 	}
